@@ -28,6 +28,12 @@ CHECKS = {
         "Parameters (weights, moduli, letter maps, special results) are thereby pinned for all 22 countries, 17 of which have no test.",
    note="Trusted: sv/tables/national.py; the probe family is finite - a special case keyed on several positions at once is not decided (stated in evidence). R06-mono/R06-flag live in the validator analysis.",
    design="3/C06"),
+ "C04": dict(
+   technique="symbolic path enumeration of the validators + regular-language inclusion (DFA over a code-point partition) against the ISO 9362 language",
+   text="All paths of BIC.__init__/validate/is_valid are enumerated for both compliance modes; the accepted language is compared with the ISO 9362 language in both directions for every "
+        "valuation of the single opaque predicate (ISO 3166 lookup). The decision covers all Unicode strings of all lengths at once and yields a shortest counter-example as witness.",
+   note="Trusted: re._parser's AST equals what the re engine executes; \\d/\\s categories via str.isdecimal/isspace; texts are clean()-normalised (C10); pycountry is an opaque predicate.",
+   design="3/C04"),
 }
 NA_REASON = "check not built yet (work in progress; see DESIGN.md section 3 for the plan)"
 
